@@ -145,11 +145,14 @@ def run_cosmic(W, cfg):
             import numpy as _np
             lt_ = W.lentil
             for sd in range(6):
-                for ts in (1.0, 1500.0, 20000.0):
+                for shp, ts in (((6, 9), 1.0), ((6, 9), 1500.0), ((6, 9), 20000.0), ((9, 6), 60000.0), ((5, 16), 80000.0), ((16, 5), 80000.0), ((7, 7), 80000.0)):
                     _np.random.seed(sd)
-                    fr = lt_.detector.cosmic_rays((6, 9), (5e-6, 5e-6), ts)
-                    if _np.shape(fr) != (6, 9) or not _np.all(_np.isfinite(fr)) or _np.any(_np.asarray(fr) < 0):
+                    fr = lt_.detector.cosmic_rays(shp, (5e-6, 5e-6, 3e-6), ts)        # pixel dimensions (y, x, z) as documented
+                    if _np.shape(fr) != shp or not _np.all(_np.isfinite(fr)) or _np.any(_np.asarray(fr) < 0):
                         return False
+                    nr = lt_.detector._nrays(shp, (5e-6, 5e-6, 3e-6), ts, 4e4)
+                    if nr >= 2 and not _np.any(_np.asarray(fr) > 0):
+                        return False          # rays strike the frame: some charge is deposited
             return True
         W.ob_concrete('cosmic_rays returns a finite, non-negative frame of the requested shape for every generator state tried', frames_ok)
         x = W.real('unused')
